@@ -80,6 +80,17 @@ class CsvDataFile():
         return self.data
 
 
+def _ends_with_closing_quote(t, escapechar):
+    if len(t) == 0 or t[-1] != '"':
+        return False
+    count = 0
+    index = len(t) - 2
+    while index >= 0 and t[index] == escapechar:
+        count += 1
+        index -= 1
+    return count % 2 == 0
+
+
 def merge_escape_parts(parts, separator, escapechar):
     try:
         merged_parts = []
@@ -92,9 +103,9 @@ def merge_escape_parts(parts, separator, escapechar):
                     agg.append('"')
                     merged_parts.append(separator.join(agg))
                     agg = None
-            elif len(t) > 0 and t[0] == '"' and t[-1] == '"' and t[-2] != escapechar and agg is None:
+            elif len(t) > 1 and t[0] == '"' and _ends_with_closing_quote(t, escapechar) and agg is None:
                 merged_parts.append(t)
-            elif len(t) > 0 and t[-1] == '"' and t[-2] != escapechar and agg is not None:
+            elif _ends_with_closing_quote(t, escapechar) and agg is not None:
                 agg.append(t)
                 merged_parts.append(separator.join(agg))
                 agg = None
